@@ -154,7 +154,7 @@ def main(tier, seed, budget):
             hs2_jobs = [dict(fn=JOB, args=dict(runname=c['runname'], compl=c['compl'], basis=c['basis'], P=1, seed=0, policy={'kind': 'lowest'},
                                                run_seed=1, nfun=c['nfun'], rank_hashseeds=[hs + 1], oracle=False,
                                                ref_hashes={f + '_%d.txt' % c['compl']: refs[(c['runname'], c['compl'])].get(f + '_%d.txt' % c['compl']) for f in GEN_FILES}),
-                             timeout=900) for c in live_cfgs if c['nfun'] <= (250 if quick else 1700)]
+                             timeout=900) for c in live_cfgs if c['nfun'] <= (600 if quick else 1700)]
             for job, out in pool.imap(hs2_jobs, timeout=900):
                 a = job['args']
                 stats['ref_worlds'] += 1
